@@ -99,3 +99,69 @@ Definition expected_sites : list (str * str * skind) :=
 
 Definition in_inventory (s : site) : bool :=
   existsb (fun e => str_eqb (fst (fst e)) (s_file s) && str_eqb (snd (fst e)) (s_name s) && skind_eqb (snd e) (s_kind s)) expected_sites.
+
+(* ================= inventory BY EFFECT: stores on objects that outlive a file ================= *)
+(* Every attribute store, item store, augmented assignment, del, setattr/delattr and mutating method call on self / cls / a
+   module global / a closed-over variable (or a local alias of something reached from them), outside __init__, in every module
+   of src/nunavut (bundled jinja2/markupsafe excluded); regenerated as Gen_Sites.g_stores.  st_phase = SRender when the function
+   is reachable -- name-based, over-approximate call graph -- from generate_all, a post-processor's __call__, or any template
+   filter / test / uses-query; SSetup otherwise (namespace tree, language context and environment construction). *)
+Inductive sroot := RSelf | RCls | RGlobal | RClosure.
+Inductive sphase := SRender | SSetup.
+Record store := { st_file : str; st_fn : str; st_target : str; st_root : sroot; st_phase : sphase }.
+
+Inductive sclass :=
+| CResetPerFile    (* the stored-to state is re-created / overwritten by _generate_code before the template of every file runs
+                      (UniqueNameGenerator singleton, LimitEmptyLines counter, now_utc): needs the translated reset facts *)
+| CPerCall         (* overwritten unconditionally by every generate_all() with values computed from that call's arguments
+                      (update_nunavut_globals): part of the model's effective configuration ecfg *)
+| CMemo            (* memo / lazily computed constant of a pure function of the object's construction inputs; key completeness:
+                      C10_all_caches_keyed_by_identity_or_value, C16_cache_transparent for the loader memo *)
+| CReviewedSetup.  (* in the render phase only through a name collision of the over-approximate call graph (LanguageConfig.set /
+                      update_section vs. dict.update / set): written while the LanguageContext is built, reviewed by hand *)
+
+(* the reviewed classification of every render-phase store.  A store of the regenerated table that is in the render phase and
+   not listed here makes stores_classified false: it has to be reviewed and classified (or removed). *)
+Definition store_classes : list (str * str * str * sclass) :=
+  [
+   ([95; 112; 111; 115; 116; 112; 114; 111; 99; 101; 115; 115; 111; 114; 115; 46; 112; 121], [76; 105; 109; 105; 116; 69; 109; 112; 116; 121; 76; 105; 110; 101; 115; 46; 114; 101; 115; 101; 116], [115; 101; 108; 102; 46; 95; 101; 109; 112; 116; 121; 95; 108; 105; 110; 101; 95; 99; 111; 117; 110; 116], CResetPerFile) (* _postprocessors.py LimitEmptyLines.reset : self._empty_line_count *);
+   ([95; 112; 111; 115; 116; 112; 114; 111; 99; 101; 115; 115; 111; 114; 115; 46; 112; 121], [76; 105; 109; 105; 116; 69; 109; 112; 116; 121; 76; 105; 110; 101; 115; 46; 95; 95; 99; 97; 108; 108; 95; 95], [115; 101; 108; 102; 46; 95; 101; 109; 112; 116; 121; 95; 108; 105; 110; 101; 95; 99; 111; 117; 110; 116], CResetPerFile) (* _postprocessors.py LimitEmptyLines.__call__ : self._empty_line_count *);
+   ([106; 105; 110; 106; 97; 47; 95; 95; 105; 110; 105; 116; 95; 95; 46; 112; 121], [67; 111; 100; 101; 71; 101; 110; 101; 114; 97; 116; 111; 114; 46; 95; 103; 101; 110; 101; 114; 97; 116; 101; 95; 99; 111; 100; 101], [115; 101; 108; 102; 46; 95; 101; 110; 118; 46; 110; 111; 119; 95; 117; 116; 99], CResetPerFile) (* jinja/__init__.py CodeGenerator._generate_code : self._env.now_utc *);
+   ([106; 105; 110; 106; 97; 47; 101; 110; 118; 105; 114; 111; 110; 109; 101; 110; 116; 46; 112; 121], [76; 97; 110; 103; 117; 97; 103; 101; 84; 101; 109; 112; 108; 97; 116; 101; 78; 97; 109; 101; 115; 112; 97; 99; 101; 46; 117; 112; 100; 97; 116; 101], [115; 101; 108; 102; 46; 60; 115; 101; 116; 97; 116; 116; 114; 32; 42; 62], CPerCall) (* jinja/environment.py LanguageTemplateNamespace.update : self.<setattr *> *);
+   ([106; 105; 110; 106; 97; 47; 101; 110; 118; 105; 114; 111; 110; 109; 101; 110; 116; 46; 112; 121], [67; 111; 100; 101; 71; 101; 110; 69; 110; 118; 105; 114; 111; 110; 109; 101; 110; 116; 46; 117; 112; 100; 97; 116; 101; 95; 110; 117; 110; 97; 118; 117; 116; 95; 103; 108; 111; 98; 97; 108; 115], [115; 101; 108; 102; 46; 110; 117; 110; 97; 118; 117; 116; 95; 103; 108; 111; 98; 97; 108; 46; 60; 115; 101; 116; 97; 116; 116; 114; 32; 101; 109; 98; 101; 100; 95; 97; 117; 100; 105; 116; 105; 110; 103; 95; 105; 110; 102; 111; 62], CPerCall) (* jinja/environment.py CodeGenEnvironment.update_nunavut_globals : self.nunavut_global.<setattr embed_auditing_info> *);
+   ([106; 105; 110; 106; 97; 47; 101; 110; 118; 105; 114; 111; 110; 109; 101; 110; 116; 46; 112; 121], [67; 111; 100; 101; 71; 101; 110; 69; 110; 118; 105; 114; 111; 110; 109; 101; 110; 116; 46; 117; 112; 100; 97; 116; 101; 95; 110; 117; 110; 97; 118; 117; 116; 95; 103; 108; 111; 98; 97; 108; 115], [115; 101; 108; 102; 46; 110; 117; 110; 97; 118; 117; 116; 95; 103; 108; 111; 98; 97; 108; 46; 60; 115; 101; 116; 97; 116; 116; 114; 32; 112; 108; 97; 116; 102; 111; 114; 109; 95; 118; 101; 114; 115; 105; 111; 110; 62], CPerCall) (* jinja/environment.py CodeGenEnvironment.update_nunavut_globals : self.nunavut_global.<setattr platform_version> *);
+   ([106; 105; 110; 106; 97; 47; 101; 110; 118; 105; 114; 111; 110; 109; 101; 110; 116; 46; 112; 121], [67; 111; 100; 101; 71; 101; 110; 69; 110; 118; 105; 114; 111; 110; 109; 101; 110; 116; 46; 117; 112; 100; 97; 116; 101; 95; 110; 117; 110; 97; 118; 117; 116; 95; 103; 108; 111; 98; 97; 108; 115], [115; 101; 108; 102; 46; 110; 117; 110; 97; 118; 117; 116; 95; 103; 108; 111; 98; 97; 108; 46; 60; 115; 101; 116; 97; 116; 116; 114; 32; 115; 117; 112; 112; 111; 114; 116; 62], CPerCall) (* jinja/environment.py CodeGenEnvironment.update_nunavut_globals : self.nunavut_global.<setattr support> *);
+   ([106; 105; 110; 106; 97; 47; 101; 110; 118; 105; 114; 111; 110; 109; 101; 110; 116; 46; 112; 121], [67; 111; 100; 101; 71; 101; 110; 69; 110; 118; 105; 114; 111; 110; 109; 101; 110; 116; 46; 117; 112; 100; 97; 116; 101; 95; 110; 117; 110; 97; 118; 117; 116; 95; 103; 108; 111; 98; 97; 108; 115], [115; 101; 108; 102; 46; 110; 117; 110; 97; 118; 117; 116; 95; 103; 108; 111; 98; 97; 108; 46; 60; 115; 101; 116; 97; 116; 116; 114; 32; 118; 101; 114; 115; 105; 111; 110; 62], CMemo) (* jinja/environment.py CodeGenEnvironment.update_nunavut_globals : self.nunavut_global.<setattr version> *);
+   ([106; 105; 110; 106; 97; 47; 101; 110; 118; 105; 114; 111; 110; 109; 101; 110; 116; 46; 112; 121], [67; 111; 100; 101; 71; 101; 110; 69; 110; 118; 105; 114; 111; 110; 109; 101; 110; 116; 46; 117; 112; 100; 97; 116; 101; 95; 110; 117; 110; 97; 118; 117; 116; 95; 103; 108; 111; 98; 97; 108; 115], [115; 101; 108; 102; 46; 110; 117; 110; 97; 118; 117; 116; 95; 103; 108; 111; 98; 97; 108; 46; 60; 115; 101; 116; 97; 116; 116; 114; 32; 116; 101; 109; 112; 108; 97; 116; 101; 95; 115; 101; 116; 115; 62], CMemo) (* jinja/environment.py CodeGenEnvironment.update_nunavut_globals : self.nunavut_global.<setattr template_sets> *);
+   ([106; 105; 110; 106; 97; 47; 101; 110; 118; 105; 114; 111; 110; 109; 101; 110; 116; 46; 112; 121], [67; 111; 100; 101; 71; 101; 110; 69; 110; 118; 105; 114; 111; 110; 109; 101; 110; 116; 46; 110; 111; 119; 95; 117; 116; 99], [115; 101; 108; 102; 46; 103; 108; 111; 98; 97; 108; 115; 91; 93], CResetPerFile) (* jinja/environment.py CodeGenEnvironment.now_utc : self.globals[] *);
+   ([106; 105; 110; 106; 97; 47; 108; 111; 97; 100; 101; 114; 115; 46; 112; 121], [68; 83; 68; 76; 84; 101; 109; 112; 108; 97; 116; 101; 76; 111; 97; 100; 101; 114; 46; 95; 116; 121; 112; 101; 95; 116; 111; 95; 116; 101; 109; 112; 108; 97; 116; 101; 95; 105; 110; 116; 101; 114; 110; 97; 108], [115; 101; 108; 102; 46; 95; 116; 121; 112; 101; 95; 116; 111; 95; 116; 101; 109; 112; 108; 97; 116; 101; 95; 108; 111; 111; 107; 117; 112; 95; 99; 97; 99; 104; 101; 91; 93], CMemo) (* jinja/loaders.py DSDLTemplateLoader._type_to_template_internal : self._type_to_template_lookup_cache[] *);
+   ([108; 97; 110; 103; 47; 95; 99; 111; 109; 109; 111; 110; 46; 112; 121], [85; 110; 105; 113; 117; 101; 78; 97; 109; 101; 71; 101; 110; 101; 114; 97; 116; 111; 114; 46; 114; 101; 115; 101; 116], [99; 108; 115; 46; 95; 115; 105; 110; 103; 108; 101; 116; 111; 110], CResetPerFile) (* lang/_common.py UniqueNameGenerator.reset : cls._singleton *);
+   ([108; 97; 110; 103; 47; 95; 99; 111; 109; 109; 111; 110; 46; 112; 121], [85; 110; 105; 113; 117; 101; 78; 97; 109; 101; 71; 101; 110; 101; 114; 97; 116; 111; 114; 46; 95; 95; 99; 97; 108; 108; 95; 95], [115; 101; 108; 102; 46; 95; 105; 110; 100; 101; 120; 95; 109; 97; 112; 91; 93; 91; 93], CResetPerFile) (* lang/_common.py UniqueNameGenerator.__call__ : self._index_map[][] *);
+   ([108; 97; 110; 103; 47; 95; 99; 111; 109; 109; 111; 110; 46; 112; 121], [85; 110; 105; 113; 117; 101; 78; 97; 109; 101; 71; 101; 110; 101; 114; 97; 116; 111; 114; 46; 95; 95; 99; 97; 108; 108; 95; 95], [115; 101; 108; 102; 46; 95; 105; 110; 100; 101; 120; 95; 109; 97; 112; 91; 93], CResetPerFile) (* lang/_common.py UniqueNameGenerator.__call__ : self._index_map[] *);
+   ([108; 97; 110; 103; 47; 95; 99; 111; 110; 102; 105; 103; 46; 112; 121], [76; 97; 110; 103; 117; 97; 103; 101; 67; 111; 110; 102; 105; 103; 46; 117; 112; 100; 97; 116; 101; 95; 115; 101; 99; 116; 105; 111; 110], [115; 101; 108; 102; 46; 95; 115; 101; 99; 116; 105; 111; 110; 115; 91; 93], CReviewedSetup) (* lang/_config.py LanguageConfig.update_section : self._sections[] *);
+   ([108; 97; 110; 103; 47; 95; 99; 111; 110; 102; 105; 103; 46; 112; 121], [76; 97; 110; 103; 117; 97; 103; 101; 67; 111; 110; 102; 105; 103; 46; 115; 101; 116], [115; 101; 108; 102; 46; 95; 115; 101; 99; 116; 105; 111; 110; 115; 91; 93; 91; 93], CReviewedSetup) (* lang/_config.py LanguageConfig.set : self._sections[][] *);
+   ([108; 97; 110; 103; 47; 95; 99; 111; 110; 102; 105; 103; 46; 112; 121], [86; 101; 114; 115; 105; 111; 110; 82; 101; 97; 100; 101; 114; 46; 118; 101; 114; 115; 105; 111; 110], [115; 101; 108; 102; 46; 95; 99; 97; 99; 104; 101; 100], CMemo) (* lang/_config.py VersionReader.version : self._cached *)
+
+  ].
+
+Definition class_of (s : store) : option sclass :=
+  match find (fun e => str_eqb (fst (fst (fst e))) (st_file s) && str_eqb (snd (fst (fst e))) (st_fn s)
+                       && str_eqb (snd (fst e)) (st_target s)) store_classes with
+  | Some e => Some (snd e)
+  | None => None
+  end.
+
+(* resets = the translated facts "_generate_code replaces the unique-name singleton and resets every line processor before the
+   template generator is consumed" *)
+Definition store_ok (resets : bool) (s : store) : bool :=
+  match st_phase s with
+  | SSetup => true
+  | SRender => match class_of s with
+               | Some CResetPerFile => resets
+               | Some _ => true
+               | None => false
+               end
+  end.
+
+(* what survives from one file to the next through stores that are not admissible: nothing iff all are admissible *)
+Definition stores_leak (resets : bool) (stores : list store) : bool := negb (forallb (store_ok resets) stores).
